@@ -2,7 +2,7 @@
     clauses the property names; the remaining functions are decided by
     correspondence, see DESIGN.md).  Statements only. *)
 From Coq Require Import Sorting.Permutation Sorting.Sorted.
-From JP Require Import Base F64 Value Sig Functions Interp Proofs.ObjFacts Proofs.FunProof Proofs.OrdProof Proofs.StrFunProof Proofs.ByProof.
+From JP Require Import Base F64 Value Sig Functions Interp Proofs.ObjFacts Proofs.FunProof Proofs.OrdProof Proofs.StrFunProof Proofs.ByProof Proofs.NumOkProof.
 
 (** sort / sort_by: the sorting routine of the model (stable insertion sort by
     [Ord for Variable], applied to the values resp. to (value, key) pairs)
@@ -76,6 +76,17 @@ Theorem C02_max_by_min_by_return_an_element : forall ev (better : bool) sg vs e 
   (vs = [] /\ r = VNull) \/ In r vs.
 Proof. exact max_by_returns_element. Qed.
 Print Assumptions C02_max_by_min_by_return_an_element.
+
+(** An integer converted to a double is never NaN (rounding yields a zero, a finite number or an
+    infinity), so integer-valued numbers always meet the "no NaN" premise of the ordering
+    theorems: sort on an array of integers is ascending with no side condition. *)
+Theorem C02_integers_never_nan : forall z, is_num_ok (VNum (PosInt z)) = true /\ is_num_ok (VNum (NegInt z)) = true.
+Proof. exact integers_are_num_ok. Qed.
+Print Assumptions C02_integers_never_nan.
+
+Theorem C02_sort_integers_ascending : forall l, forallb is_int_value l = true -> StronglySorted (le var_cmp) (stable_sort var_cmp l).
+Proof. exact sort_integers_ascending. Qed.
+Print Assumptions C02_sort_integers_ascending.
 
 (** sort_by: the expression reference is evaluated once per element, in order, against
     that element ([each]); the result lists the elements in an order that is a
